@@ -64,6 +64,7 @@ def find_scans(f, L, body, paths):
             sc.S = S
             key = [k for k in p.pre_loop if k[0] == 0]
             sc.pre = {}
+            sc.loop_heads = {k[1] for k in p.pre_loop if k[0] == 0}
             for k, snap in p.pre_loop.items():
                 if k[0] == 0:
                     for (nm, path), v in snap.items():
@@ -130,6 +131,7 @@ def find_scans(f, L, body, paths):
                         eff.append((hv[0][2], strip_idx(L.lift(r))))
                 elif v[0] != "hv":
                     eff.append((nm, ("assigned", strip_idx(L.lift(v)))))
+        eff = sorted(set(eff), key=repr)          # a temporary holding the same update is not a second effect
         sc.arms.setdefault(cls, []).append(eff)
     return list(scans.values())
 
@@ -231,3 +233,13 @@ def check_scan(ctx, tag, body, sc, where, require_zero_arm=True):
         ctx.check(not bad, "%s:scan:other-lengths-inert" % tag,
                   "an attacker with %s blockers changes the tracked sets: %s" % (cls, bad[:1]), where)
     return checkers_acc, pinned_acc
+
+
+def acc_initial(sc, acc):
+    """value the accumulator `acc` (an hv name returned by check_scan) had on entry to the loop"""
+    return sc.pre.get(acc) if acc else None
+
+
+def is_acc_result(sc, acc, v):
+    """v is the value of accumulator `acc` after the scan loop (its havoc version at this loop's header)"""
+    return acc is not None and isinstance(v, tuple) and len(v) == 4 and v[0] == "hv" and v[2] == acc and v[3] in sc.loop_heads
